@@ -7,6 +7,7 @@ use casbin::{DefaultRoleManager, RoleManager};
 pub struct World {
     pub rt: tokio::runtime::Runtime,
     pub rm: Option<DefaultRoleManager>,
+    pub ew: crate::enf::EnfWorld,
 }
 
 pub fn dom_opt(s: &str) -> Option<String> {
@@ -18,6 +19,7 @@ impl World {
         World {
             rt: tokio::runtime::Builder::new_current_thread().enable_all().build().unwrap(),
             rm: None,
+            ew: crate::enf::EnfWorld::new(),
         }
     }
 
@@ -25,6 +27,12 @@ impl World {
     pub fn exec(&mut self, op: &str) -> String {
         let op = op.strip_prefix('~').unwrap_or(op);
         let f: Vec<&str> = op.split('\t').collect();
+        if f[0] == "e.reload" {
+            return self.ew.reload_scratch(&self.rt);
+        }
+        if f[0].starts_with("e.") || f[0].starts_with("m.") {
+            return self.ew.exec(&self.rt, &f);
+        }
         match f[0] {
             "eff.run" => {
                 let xi: usize = f[1].parse().unwrap();
